@@ -49,6 +49,7 @@ func runPotsExhaustive(dir string, part, parts int) {
 			}
 			execPots(o, es)
 			o.Count(fmt.Sprintf("potsx.n%d", sc.n))
+			o.Count("potsx.vectors")
 		}
 	}
 	o.Close(dir, "potsx", 0)
